@@ -178,6 +178,38 @@ def random_scenario(rng, n_min=3, n_max=8, norm=None):
             return s
 
 
+def special_scenarios():
+    """Hand-picked shapes that random generation rarely produces: chained dependent sources, a source depending on
+    another source by a pure dependency, consumers that only depend on (do not read) a source, literal chains."""
+    base = {"nkw": None, "norm": False, "scopes": None, "falsy_stores": False, "reg_seed": 0}
+    shapes = [
+        # src1 -> w2 => X3 ; src1 -> w4 => Y5 which also depends on X3 ; stored consumer of Y5
+        dict(N=6, kind=["call"] * 6, args=[[], [1], [], [1], [], [5]], deps=[[], [], [2], [], [4, 3], []],
+             reg=["src", "none", "src", "none", "src", "stored"], wof=[0, 0, 2, 0, 4, 0], side=[0, 3, 0, 5, 0, 0], consistent=False),
+        # the consumer only depends on Y5 (looks at the data out of band) and is stored
+        dict(N=6, kind=["call"] * 6, args=[[], [1], [], [1], [], [1]], deps=[[], [], [2], [], [4, 3], [5]],
+             reg=["src", "none", "src", "none", "src", "stored"], wof=[0, 0, 2, 0, 4, 0], side=[0, 3, 0, 5, 0, 0], consistent=False),
+        # three chained dependent sources
+        dict(N=7, kind=["call"] * 7, args=[[], [], [], [1], [], [1], [5]], deps=[[], [], [2], [], [4, 3], [], [5]],
+             reg=["src", "none", "src", "none", "src", "none", "stored"], wof=[0, 0, 2, 0, 4, 0, 0], side=[0, 3, 0, 5, 0, 0, 0], consistent=False),
+        # dependency routed through two literals between stored calls
+        dict(N=5, kind=["call", "call", "lit", "lit", "call"], args=[[], [1], [], [], [1]], deps=[[], [], [2], [3], [4]],
+             reg=["src", "stored", "none", "none", "stored"], wof=[0] * 5, side=[0] * 5, consistent=True),
+        # a literal that is both an argument and an ordering marker
+        dict(N=5, kind=["call", "call", "lit", "call", "call"], args=[[], [1], [], [3, 1], [3]], deps=[[], [], [2], [], [4]],
+             reg=["src", "stored", "none", "stored", "stored"], wof=[0] * 5, side=[0] * 5, consistent=True),
+    ]
+    out = []
+    for sh in shapes:
+        d = dict(base)
+        d.update(sh)
+        d["nkw"] = [0] * d["N"]
+        d["scopes"] = [[] for _ in range(d["N"])]
+        assert wellformed(d), d
+        out.append(d)
+    return out
+
+
 def small_scenarios(N, norm=False, max_args=2):
     """Every well-formed role-assigned scenario on N nodes with at most `max_args` arguments per call
     and at most one plain dependency per ordered pair (exhaustive)."""
